@@ -1,8 +1,8 @@
 (* C07 — APDU fixed headers carry every field of all eight PDU types faithfully.
    Property theorems only; proofs live in Bac.ApciHdr / ApciDec / ApciTypes (header codec model
    Bac.Apci) and Bac.ApciFacts (the AST-translated code tables BacGen.ApduFns). *)
-From Bac Require Import Base PyRt Apci ApciHdr ApciDec ApciTypes ApciFacts ApciSession ApciSessionFacts.
-From BacGen Require Import ApduFns.
+From Bac Require Import Base PyRt Apci ApciHdr ApciDec ApciTypes ApciFacts ApciSession ApciSessionFacts ApciRt ApciGenFacts.
+From BacGen Require Import ApduFns ApciFns.
 Open Scope N_scope.
 
 (* ---- round trip, per PDU type.  `roundtrips a octets` :=  for every payload,
@@ -184,6 +184,149 @@ Theorem C07_ops_touch_only_named_objects : forall st x o', ~ In o' (touched x) -
 Proof. exact step_frame. Qed.
 Print Assumptions C07_ops_touch_only_named_objects.
 
+(* typed classes and re-used sources / targets (round 3) *)
+
+(* X.decode(apdu) into a typed object that was used before: attributes and payload are the source's,
+   whatever the object held; the source is drained *)
+Theorem C07_typed_decode_replaces : forall st dst src, dst <> src ->
+  lookup (fst (step st (OpTyped dst src))) dst = lookup st src /\
+  lookup (fst (step st (OpTyped dst src))) src = (fst (lookup st src), []).
+Proof. exact typed_decode_replaces. Qed.
+Print Assumptions C07_typed_decode_replaces.
+
+(* apdu.decode(pdu), pdu an object the application keeps: header + payload in the APDU, the PDU empty *)
+Theorem C07_decode_from_drains_source : forall st o src a r, o <> src ->
+  dec_into (fst (lookup st o)) (snd (lookup st src)) = Ok (a, r) ->
+  lookup (fst (step st (OpDecodeFrom o src))) o = (a, r) /\
+  lookup (fst (step st (OpDecodeFrom o src))) src = (fst (lookup st src), []).
+Proof. exact decode_from_drains. Qed.
+Print Assumptions C07_decode_from_drains_source.
+
+(* relay: decode a frame out of a PDU, encode the APDU back into the same PDU — exactly the frame again *)
+Theorem C07_relay_roundtrip : forall st o src h p, o <> src -> wf_hdr h = true ->
+  snd (lookup st src) = spec20_1 h ++ p ->
+  let st1 := fst (step st (OpDecodeFrom o src)) in
+  let st2 := fst (step st1 (OpEncodeTo o src)) in
+  lookup st1 o = (overlay (fst (lookup st o)) (to_apci h), p) /\
+  snd (lookup st1 src) = [] /\
+  snd (lookup st2 src) = spec20_1 h ++ p /\
+  lookup st2 o = lookup st1 o.
+Proof. exact relay_roundtrip. Qed.
+Print Assumptions C07_relay_roundtrip.
+
+(* ---- the SOURCE, translated: BacGen.ApciFns is regenerated from py34/bacpypes/apdu.py by
+   translator/gen_apci.py on every run (APCI.update / encode / decode, APDU.encode / decode,
+   _APDU.encode / decode, statement by statement).  An object is (attributes, pduData); a translated
+   method takes self and its other parameter and returns both.  The translated text equals the hand
+   model for ALL inputs, so every theorem above is a theorem about what the source says now. *)
+Open Scope Z_scope.
+
+Theorem C07_translated_pdu_types_is_model : pdu_type_constants = [0; 1; 2; 3; 4; 5; 6; 7].
+Proof. exact pdu_type_constants_std. Qed.
+Print Assumptions C07_translated_pdu_types_is_model.
+
+Theorem C07_translated_update_is_model : forall a sd b bd,
+  py_APCI_update a sd b bd = Ok ((b, sd), (b, bd)).
+Proof. exact py_APCI_update_eq. Qed.
+Print Assumptions C07_translated_update_is_model.
+
+Theorem C07_translated_apci_encode_is_model : forall a sd pa pd,
+  py_APCI_encode a sd pa pd = do h <- enc_apci a; Ok ((a, sd), (pa, pd ++ h)).
+Proof. exact py_APCI_encode_eq. Qed.
+Print Assumptions C07_translated_apci_encode_is_model.
+
+Theorem C07_translated_apci_decode_is_model : forall old sd pa bs,
+  py_APCI_decode old sd pa bs
+  = do (a, r) <- dec_apci bs; Ok ((overlay old a, if data_taken a then r else sd), (pa, r)).
+Proof. exact py_APCI_decode_eq. Qed.
+Print Assumptions C07_translated_apci_decode_is_model.
+
+Theorem C07_translated_apdu_encode_is_model : forall a sd pa pd,
+  py_APDU_encode a sd pa pd = do bs <- enc_apdu a sd; Ok ((a, sd), (pa, pd ++ bs)).
+Proof. exact py_APDU_encode_eq. Qed.
+Print Assumptions C07_translated_apdu_encode_is_model.
+
+Theorem C07_translated_apdu_decode_is_model : forall old sd pa bs,
+  py_APDU_decode old sd pa bs = do (a, r) <- dec_into old bs; Ok ((a, r), (pa, [])).
+Proof. exact py_APDU_decode_eq. Qed.
+Print Assumptions C07_translated_apdu_decode_is_model.
+
+Theorem C07_translated_typed_encode_is_model : forall a sd pa pd,
+  py__APDU_encode a sd pa pd = Ok ((a, sd), (a, pd ++ sd)).
+Proof. exact py__APDU_encode_eq. Qed.
+Print Assumptions C07_translated_typed_encode_is_model.
+
+(* the decode of the eight typed classes: the payload the object held (sd) is gone, for every sd *)
+Theorem C07_translated_typed_decode_is_model : forall old sd a pd,
+  py__APDU_decode old sd a pd = Ok ((a, pd), (a, [])).
+Proof. exact py__APDU_decode_eq. Qed.
+Print Assumptions C07_translated_typed_decode_is_model.
+
+(* the main statements directly on the translated functions.
+   Layout and round trip, for every well-formed header and EVERY payload (no bound on its length):
+   no size is refused, the payload is untouched *)
+Theorem C07_translated_roundtrip_every_payload_length : forall h payload pa, wf_hdr h = true ->
+  py_APDU_encode (to_apci h) payload pa [] = Ok ((to_apci h, payload), (pa, spec20_1 h ++ payload)) /\
+  py_APDU_decode apci_none [] pa (spec20_1 h ++ payload) = Ok ((to_apci h, payload), (pa, [])).
+Proof. exact gen_roundtrip. Qed.
+Print Assumptions C07_translated_roundtrip_every_payload_length.
+
+Theorem C07_translated_layout : forall h sd pa pd, wf_hdr h = true ->
+  py_APCI_encode (to_apci h) sd pa pd = Ok ((to_apci h, sd), (pa, pd ++ spec20_1 h)).
+Proof. exact gen_layout. Qed.
+Print Assumptions C07_translated_layout.
+
+(* arbitrary octets of any length into any object: a header, or DecodingError — nothing else *)
+Theorem C07_translated_decode_total : forall old sd pa bs,
+  (exists a r, py_APDU_decode old sd pa bs = Ok ((a, r), (pa, []))) \/
+  py_APDU_decode old sd pa bs = Err DecodingError.
+Proof. exact gen_decode_total. Qed.
+Print Assumptions C07_translated_decode_total.
+
+Theorem C07_translated_invalid_type_refused : forall a sd pa pd,
+  (forall k, 0 <= k <= 7 -> aType a <> Some k) -> py_APDU_encode a sd pa pd = Err ValueErr.
+Proof. exact gen_invalid_type. Qed.
+Print Assumptions C07_translated_invalid_type_refused.
+
+(* decode into a USED object of the generic class, and the whole path through a USED typed object *)
+Theorem C07_translated_reused_object_roundtrip : forall old sd pa h p, wf_hdr h = true ->
+  py_APDU_decode old sd pa (spec20_1 h ++ p) = Ok ((overlay old (to_apci h), p), (pa, [])) /\
+  py_APDU_encode (overlay old (to_apci h)) p pa [] = Ok ((overlay old (to_apci h), p), (pa, spec20_1 h ++ p)).
+Proof. exact gen_reused_object. Qed.
+Print Assumptions C07_translated_reused_object_roundtrip.
+
+Theorem C07_translated_typed_roundtrip : forall old sd told tsd pa h p, wf_hdr h = true ->
+  exists a, a = overlay old (to_apci h) /\
+  py_APDU_decode old sd pa (spec20_1 h ++ p) = Ok ((a, p), (pa, [])) /\
+  py__APDU_decode told tsd a p = Ok ((a, p), (a, [])) /\
+  py__APDU_encode a p apci_none [] = Ok ((a, p), (a, p)) /\
+  py_APDU_encode a p pa [] = Ok ((a, p), (pa, spec20_1 h ++ p)).
+Proof. exact gen_typed_roundtrip. Qed.
+Print Assumptions C07_translated_typed_roundtrip.
+
+(* the steps of the object-history model are the translated methods applied to the stored objects *)
+Theorem C07_translated_step_decode_from : forall st o src so ss, o <> src ->
+  py_APDU_decode (fst (lookup st o)) (snd (lookup st o)) (fst (lookup st src)) (snd (lookup st src)) = Ok (so, ss) ->
+  lookup (fst (step st (OpDecodeFrom o src))) o = so /\
+  lookup (fst (step st (OpDecodeFrom o src))) src = ss.
+Proof. exact step_decode_from_is_translated. Qed.
+Print Assumptions C07_translated_step_decode_from.
+
+Theorem C07_translated_step_typed : forall st dst src so ss, dst <> src ->
+  py__APDU_decode (fst (lookup st dst)) (snd (lookup st dst)) (fst (lookup st src)) (snd (lookup st src)) = Ok (so, ss) ->
+  lookup (fst (step st (OpTyped dst src))) dst = so /\
+  lookup (fst (step st (OpTyped dst src))) src = ss.
+Proof. exact step_typed_is_translated. Qed.
+Print Assumptions C07_translated_step_typed.
+
+Theorem C07_translated_step_encode_to : forall st o dst so sd', o <> dst ->
+  py_APDU_encode (fst (lookup st o)) (snd (lookup st o)) (fst (lookup st dst)) (snd (lookup st dst)) = Ok (so, sd') ->
+  lookup (fst (step st (OpEncodeTo o dst))) o = so /\
+  lookup (fst (step st (OpEncodeTo o dst))) dst = sd'.
+Proof. exact step_encode_to_is_translated. Qed.
+Print Assumptions C07_translated_step_encode_to.
+Open Scope N_scope.
+
 (* ---- the two code tables (generated text of BacGen.ApduFns), for every integer *)
 Open Scope Z_scope.
 
@@ -278,6 +421,25 @@ Example C07_history_example :       (* reject decoded, scribbled on, another rej
   canon_session [OpDecode 0 [96; 7; 4]%N; OpPut 0 [222; 173]%N; OpDecode 1 [96; 7; 4]%N; OpReencode 1; OpReencode 0]
   = (framed (canon_dec (dec_apci [96; 7; 4]%N)) ++ framed (canon_dec (dec_apci [96; 7; 4]%N))
      ++ framed [0; 96; 7; 4] ++ framed [0; 96; 7; 4; 222; 173])%Z.
+Proof. vm_compute. reflexivity. Qed.
+Example C07_translated_examples :     (* the translated methods compute: header + payload into an empty PDU and back *)
+  py_APDU_encode (confirmed_request_attrs true false true 3 5 200 1 2 12) [120; 121; 122] apci_none []
+  = Ok ((confirmed_request_attrs true false true 3 5 200 1 2 12, [120; 121; 122]),
+        (apci_none, [10; 53; 200; 1; 2; 12; 120; 121; 122]))
+  /\ py_APDU_decode apci_none [9] apci_none [10; 53; 200; 1; 2; 12; 120; 121; 122]
+     = Ok ((confirmed_request_attrs true false true 3 5 200 1 2 12, [120; 121; 122]), (apci_none, []))
+  /\ py__APDU_decode (reject_attrs 1 2) [7; 7; 7] (simple_ack_attrs 1 2) [3]
+     = Ok ((simple_ack_attrs 1 2, [3]), (simple_ack_attrs 1 2, []))
+  /\ py_APDU_decode apci_none [] apci_none [128] = Err DecodingError.
+Proof. repeat split; vm_compute; reflexivity. Qed.
+Example C07_largest_apdu_example :    (* 1476 and 5000 octets: nothing refused, payload untouched *)
+  canon_enc_big 1474 3 (enc_apdu (unconfirmed_request_attrs 8) (pat 1474 3)) = [0; 16; 8; 1476; 1]%Z
+  /\ canon_dec_big 5000 9 (dec_apci ([80; 1; 2] ++ pat 5000 9))
+     = (0 :: canon_apci (error_attrs 1 2) ++ [5000; 1])%Z.
+Proof. split; vm_compute; reflexivity. Qed.
+Example C07_relay_example :           (* decode out of PDU 1, encode back into PDU 1: the frame again *)
+  canon_session [OpNew 1; OpPut 1 [96; 7; 4; 33]%N; OpDecodeFrom 0 1; OpPeek 1; OpEncodeTo 0 1; OpPeek 1]
+  = (framed (canon_dec (dec_apci [96; 7; 4; 33]%N)) ++ framed [] ++ framed [0] ++ framed [96; 7; 4; 33])%Z.
 Proof. vm_compute. reflexivity. Qed.
 Example C07_table_examples :
   (encode_max_segments_accepted 3 = Ok 1 /\ encode_max_segments_accepted 65 = Ok 7 /\
